@@ -191,7 +191,11 @@ def run_job(job):
                     continue
                 try:
                     fn = g[c["fn"]]
-                    r = ["ret", describe(fn(*args, **kwargs))]
+                    value = fn(*args, **kwargs)
+                    # call() is documented to assign the result to `target` (default "_"): the direct
+                    # counterpart of call(fn, *args, target=t) is the statement `t = fn(*args)`
+                    g[c.get("target", "_")] = value
+                    r = ["ret", describe(value)]
                 except JobTimeout:
                     raise
                 except BaseException as e:  # noqa
